@@ -86,7 +86,13 @@ func (rw *simRW) Write(p []byte) (int, error) {
 	c.afterHandler("Write")
 	c.w.sim.YieldHere("rw.Write")
 	if c.cut || c.bodyClosed {
-		return 0, c.serverWriteFailed("write")
+		// a buffered writer on a dead connection may take part of p before the failure shows
+		n := 0
+		if len(p) > 1 && c.w.ch.Chance(1, 2, "failing write accepts a part") {
+			n = c.w.ch.Intn(len(p), "bytes accepted by the failing write")
+			c.w.o.probe("server-side write failed after accepting a part")
+		}
+		return n, c.serverWriteFailed("write")
 	}
 	if !c.wroteHeader {
 		rw.WriteHeader(200)
